@@ -294,6 +294,36 @@ def C12(tier, seed):
     res.assumptions = SESSION_ASSUME
     return res
 
+def C19(tier, seed):
+    res = Result("C19", "exploration")
+    out = rundir("C19")
+    exe = vlib.build("asan")
+    tbl = recognizer_table()
+    T = tier == "thorough"
+    runs = [("parse_log", ["--table", tbl, "--mode", "comp", "--n", "60000" if T else "3000"]), ("parse_log", ["--table", tbl, "--mode", "c03", "--n", "20000" if T else "1500"]),
+            ("tostring", ["--table", tbl, "--n", "2000" if T else "150"]),
+            ("algebra", ["--mode", "addbase", "--n", "120000" if T else "7000"]), ("algebra", ["--mode", "normalize", "--n", "120000" if T else "6000"]),
+            ("algebra", ["--mode", "removebase", "--n", "120000" if T else "7000"]), ("algebra", ["--mode", "equals", "--n", "150000" if T else "9000"]), ("algebra", ["--mode", "c09", "--n", "60000" if T else "4000"]),
+            ("escape", ["--n", "300000" if T else "20000"]), ("query", ["--n", "150000" if T else "12000"]), ("file", ["--n", "200000" if T else "15000"]),
+            ("session", ["--mode", "random", "--n", "6000" if T else "300"])]
+    per = {}
+    for i, (drv, args) in enumerate(runs):
+        stream = "pair%d_%s" % (i, drv)
+        h = vlib.run_harness(exe, [drv, "--pair", "1", "--seed", str(seed), "--tier", tier] + args, out, stream, timeout=3000)
+        res.violations += harness_crash_violations(h, "C19")
+        res.add_stats(vlib.merge_stats(h["stats"]))
+        before = res.coverage.get("events_validated", 0)
+        res.violations += validate_stream(res, "Trace_Pair", out, stream, "C19")
+        per[drv + " " + " ".join(a for a in args if not a.startswith("/"))] = res.coverage.get("events_validated", 0) - before
+    if any(v == 0 for v in per.values()): raise Infra("a pair stream is empty: %s" % per)
+    res.coverage["pairs_by_driver"] = per
+    res.coverage["rule"] = ("every driver of the other checks is a template over the character type; in pair mode each case is run for char AND wchar_t and the i-th recorded event of one run is put next to the i-th of the other "
+        "(texts as code points, sizes and offsets in characters, output buffers ending at a PROT_NONE page in BYTES so that a size computed in bytes instead of characters overruns or under-fills): parse (6 entry points, prefixes, mid-buffer ranges), "
+        "recompose for every capacity, resolve, create reference, normalize + mask query, compare, escape / unescape, query compose / dissect, the four filename conversions, and whole sessions incl. make-owner; "
+        "TLC (Trace_Pair) requires the two records to be identical apart from the width tag and the allocator logs. non-trivial = non-empty input; distinct by case")
+    res.assumptions = ["TLC/SANY, CommunityModules", "that each variant is also what the specification says is decided by the property-specific checks on the same events (both widths alternate there)", "guard pages / ASan make an over-run an event"]
+    return res
+
 def _simple(pid, tier, seed, model, model_cfg_q, model_cfg_t, model_note, driver, trace, rule, assumptions, level="model_checking", extra_args=(), also=()):
     res = Result(pid, level)
     out = rundir(pid)
@@ -368,7 +398,7 @@ def C13(tier, seed):
         "freeing URI members twice more must release nothing; all 31 incomplete managers x the 9 manager-taking functions must be rejected with the dedicated code before anything is allocated. non-trivial = every case; distinct by (operation, inputs, mask, manager kind)",
         ["TLC/SANY, CommunityModules", "spec/UriLedger.tla", "recording manager and libc interposition of the harness"])
 
-CHECKS = {"C13": C13, "C14": C14, "C15": C15, "C16": C16, "C17": C17, "C18": C18, "C01": C01, "C02": C02, "C03": C03, "C04": C04, "C05": C05, "C06": C06, "C08": C08, "C07": C07, "C09": C09, "C10": C10, "C11": C11, "C12": C12}
+CHECKS = {"C13": C13, "C14": C14, "C15": C15, "C16": C16, "C17": C17, "C18": C18, "C01": C01, "C02": C02, "C03": C03, "C04": C04, "C05": C05, "C06": C06, "C08": C08, "C07": C07, "C09": C09, "C10": C10, "C11": C11, "C12": C12, "C19": C19}
 
 # ------------------------------------------------------------------ known findings triage, replay
 def triage(pid, violations, kf):
